@@ -1,5 +1,5 @@
 (* C06 — one clock; no access to the future; recorded history never changes (market level). *)
-Require Import Pams.Prelude Pams.Match Pams.Market Pams.MatchQ Pams.MarketInv Pams.MarketSeries.
+Require Import Pams.Prelude Pams.Match Pams.Market Pams.MatchQ Pams.MarketInv Pams.MarketSeries Pams.Sim Pams.SimClock.
 Open Scope Z_scope.
 
 (* The eight recorded values (market, mid, last-trade, fundamental price, executed volume, turnover,
@@ -29,6 +29,54 @@ Print Assumptions C06_future_refused.
 Theorem C06_past_and_present_answered : forall m t, t <= m_time m -> q_at m t <> verr EFuture.
 Proof. exact past_answered. Qed.
 Print Assumptions C06_past_and_present_answered.
+
+(* ---- run level (Level S model of runner + simulator + events) ---- *)
+
+(* the whole step before the clock update (before/after-step hooks incl. trading-halt resume and fundamental shocks,
+   consulting agents, every accepted order and cancel, every matching round with its hooks and callbacks) leaves
+   every market's id and time alone ... *)
+Theorem C06_order_phase_never_moves_a_clock : forall s, keeps s (update_markets s).
+Proof. exact keeps_update_markets. Qed.
+Print Assumptions C06_order_phase_never_moves_a_clock.
+
+(* ... the clock update moves EVERY market (index markets included) by exactly one, none skipped, none twice ... *)
+Theorem C06_clock_update_moves_all_markets_by_one : forall t s, clock_inv t s -> clock_inv (t + 1) (tick_all s).
+Proof. exact tick_all_clock. Qed.
+Print Assumptions C06_clock_update_moves_all_markets_by_one.
+
+(* ... so one step is one tick of the single shared clock ... *)
+Theorem C06_one_step_one_tick : forall t s, clock_inv t s -> clock_inv (t + 1) (one_step s).
+Proof. exact one_step_clock. Qed.
+Print Assumptions C06_one_step_one_tick.
+
+(* ... a session spans exactly its configured number of steps ... *)
+Theorem C06_session_spans_its_steps : forall t s se, 0 <= se_steps se -> clock_inv t s -> clock_inv (t + se_steps se) (run_session s se).
+Proof. exact run_session_clock. Qed.
+Print Assumptions C06_session_spans_its_steps.
+
+(* ... every session is entered with all markets at its own start time = where the previous one ended ... *)
+Theorem C06_sessions_follow_one_another : forall c tape batches funds,
+  NoDup (map mc_id (c_markets c)) -> Forall (fun sc => 0 <= sc_steps sc) (c_sessions c) ->
+  let s1 := tick_all (flush (write (init_sim c tape batches funds) EvSimBegin)) in
+  sessions_from s1 (s_sessions s1) (fold_left run_session (s_sessions s1) s1).
+Proof. exact run_sessions_chain. Qed.
+Print Assumptions C06_sessions_follow_one_another.
+
+(* ... and a run that does not fail ends with every market at the total number of configured steps: for every
+   configuration, every tape of runner decisions, all agent behaviour, all fundamental paths *)
+Theorem C06_run_ends_at_total_steps : forall c tape batches funds,
+  NoDup (map mc_id (c_markets c)) -> Forall (fun sc => 0 <= sc_steps sc) (c_sessions c) ->
+  clock_inv (total_steps (mk_sessions (c_sessions c) 0)) (run c tape batches funds).
+Proof. exact run_clock. Qed.
+Print Assumptions C06_run_ends_at_total_steps.
+
+Example C06_run_nonvacuous :
+  let c := mkCfg [mkMC 0 (1#1) (300#1) None 1; mkMC 1 (1#1) (300#1) (Some [0]) 1] []
+                 [mkSC 0 2 false false 1 1 (0#1); mkSC 1 3 false false 1 1 (0#1)] [] in
+  let funds := flat_map (fun t => [(0, t, 300#1)]) [0;1;2;3;4;5] in
+  let s := run c [] [] funds in
+  ok s = true /\ map snd (keys s) = [5; 5].
+Proof. exact clock_example. Qed.
 
 (* non-vacuity: crossing the storage chunk at t = 100 with a trade recorded at t = 1 *)
 Example C06_nonvacuous :
